@@ -281,6 +281,10 @@ func explore(s *Scenario, c Component) {
 		reps, seed := atoi(s.Mode[1]), int64(atoi(s.Mode[2]))
 		vsched.MaxPreempt = -1
 		rng := rand.New(rand.NewSource(seed))
+		// no fairness hand-over here: a thread that spins waiting for the suspended one must run into the step bound
+		spin := vsched.SpinLimit
+		vsched.SpinLimit = 1 << 30
+		defer func() { vsched.SpinLimit = spin }()
 		// calibration run: how many accesses each thread makes when nobody is frozen
 		vsched.Picker = nil
 		runOnce(s, c, n, nil, -1)
